@@ -246,13 +246,14 @@ const (
 )
 
 // barrier waits until all bytes written to srv were acknowledged (SIOCOUTQ of srv = 0) and consumed by
-// the application on the other end (SIOCINQ of its socket = 0).  Gives up after 300 ms (counted) or when
+// the application on the other end (SIOCINQ of its socket = 0).  Gives up after 1 s (counted) or when
 // stop is closed.
 func (p *peer) barrier(srv *net.TCPConn, rfd int, stop <-chan struct{}) bool {
 	p.barriers++
 	if rfd < 0 {
+		// the reader's socket was not found (no /proc?): fall back to a pause; counted as not guaranteed
 		p.timeouts++
-		time.Sleep(2 * time.Millisecond)
+		time.Sleep(100 * time.Microsecond)
 		return false
 	}
 	raw, err := srv.SyscallConn()
@@ -260,7 +261,7 @@ func (p *peer) barrier(srv *net.TCPConn, rfd int, stop <-chan struct{}) bool {
 		p.timeouts++
 		return false
 	}
-	deadline := time.Now().Add(300 * time.Millisecond)
+	deadline := time.Now().Add(time.Second)
 	for i := 0; ; i++ {
 		tx, ok1 := 0, false
 		raw.Control(func(fd uintptr) { tx, ok1 = ioctlInt(int(fd), siocoutq) })
@@ -845,6 +846,11 @@ func (g *gen) generate() {
 			g.segmentations("R", "-", stream, frameOffsets(v, true, msgs), showDelivery(v, msgs, "EOF"), "valid", oneByteLimit, nr)
 		}
 		// intermediate carries lengths that are not a multiple of 4 (the code has no check); abridged refuses them in WriteMsg
+		if v == "A" {
+			for _, l := range [][]int{{3}, {4, 6, 4}, {510}} {
+				g.add(&job{kind: "F", v: v, msgs: g.msgList(l), class: "writer-tcp-refused"})
+			}
+		}
 		if v == "I" {
 			for _, l := range [][]int{{1}, {2, 3}, {5, 0, 7}, {509}, {1021, 1}} {
 				msgs := g.msgList(l)
@@ -852,6 +858,19 @@ func (g *gen) generate() {
 				stream := refWire(v, msgs)
 				g.segmentations("R", "-", stream, frameOffsets(v, true, msgs), showDelivery(v, msgs, "EOF"), "valid-unaligned", oneByteLimit, nRandom)
 			}
+		}
+	}
+
+	// --- thorough: one byte at a time through a 2^20-byte message (about a minute of barriers)
+	if thorough {
+		for _, x := range []struct {
+			v string
+			n int
+		}{{"A", 1 << 20}, {"I", 1 << 18}} {
+			msgs := g.msgList([]int{x.n})
+			stream := refWire(x.v, msgs)
+			g.add(&job{kind: "R", v: "-", stream: stream, cuts: ones(len(stream)), barrier: true,
+				expect: showDelivery(x.v, msgs, "EOF"), class: "valid/1-byte"})
 		}
 	}
 
@@ -1082,8 +1101,16 @@ func (g *gen) run(nworkers int) (timeouts, barriers int) {
 			}
 		}(peers[w])
 	}
+	// the few very long jobs first, so that they overlap with everything else
 	for _, j := range g.jobs {
-		ch <- j
+		if len(j.cuts) > 100000 {
+			ch <- j
+		}
+	}
+	for _, j := range g.jobs {
+		if len(j.cuts) <= 100000 {
+			ch <- j
+		}
 	}
 	close(ch)
 	wg.Wait()
@@ -1158,21 +1185,33 @@ func main() {
 		fmt.Printf("stat\timpl_run_ms\t%d\n", time.Since(t0).Milliseconds())
 	case "one":
 		p := newPeer()
+		// an argument "@path" is read from that file (hex of a 1 MB stream does not fit an argv entry)
+		arg := func(i int) string {
+			if i >= len(os.Args) {
+				return ""
+			}
+			a := os.Args[i]
+			if strings.HasPrefix(a, "@") {
+				b, err := os.ReadFile(a[1:])
+				if err != nil {
+					fmt.Fprintln(os.Stderr, err)
+					os.Exit(3)
+				}
+				return strings.TrimSpace(string(b))
+			}
+			return a
+		}
 		switch os.Args[2] {
 		case "R":
-			fmt.Println(p.runR(vc.UnHex(os.Args[3]), parseSizes(os.Args[4]), true))
+			fmt.Println(p.runR(vc.UnHex(arg(3)), parseSizes(arg(4)), true))
 		case "T":
-			r, ann := p.runT(os.Args[3], vc.UnHex(os.Args[4]), parseSizes(os.Args[5]), true)
+			r, ann := p.runT(arg(3), vc.UnHex(arg(4)), parseSizes(arg(5)), true)
 			fmt.Println(r + "\t" + ann)
 		case "W":
-			ann, r := runW(os.Args[3], vc.UnHex(os.Args[4]))
+			ann, r := runW(arg(3), vc.UnHex(arg(4)))
 			fmt.Println(r + "\t" + ann)
 		case "F":
-			arg := ""
-			if len(os.Args) > 4 {
-				arg = os.Args[4]
-			}
-			fmt.Println(p.runF(os.Args[3], unhexList(arg)))
+			fmt.Println(p.runF(arg(3), unhexList(arg(4))))
 		}
 	default:
 		os.Exit(3)
